@@ -2,7 +2,7 @@
    Property theorems only; each is closed by [exact] of a lemma proved in
    Proofs/C02.v and followed by Print Assumptions. *)
 From Coq Require Import ZArith List Bool.
-From Verif Require Import Common.ListIdx Model.C02 Proofs.C02.
+From Verif Require Import Common.ListIdx Model.C02 Proofs.C02 Proofs.C02_export.
 Import ListNotations.
 Open Scope Z_scope.
 
@@ -114,18 +114,23 @@ Theorem C02_export_selects :
             = spec_content A d enum filtered filt (spec_lim A skip fs)
                            (f_kind f) (p_data p))
       /\ (forall n k, ~ In n (sortset req) -> content A calls n k = [])
-      /\ (forall f p, In f fs -> In p (f_parts f) -> calls <> [] ->
-            cnt = len (spec_content A d enum filtered filt (spec_lim A skip fs)
-                                    (f_kind f) (p_data p))
-            \/ content A calls (f_name f) (p_key p) = []).
+      /\ (calls <> [] -> exists f p, In f fs /\ In p (f_parts f)
+            /\ cnt = len (content A calls (f_name f) (p_key p)))
+      /\ (calls = [] ->
+            cnt = match filter_arr A ds filt filtered skip fs with
+                  | Some fl => count_true fl
+                  | None => ds_count ds
+                  end).
 Proof. exact export_selects. Qed.
 Print Assumptions C02_export_selects.
 
 (* The export does not always succeed: a sliceable source that rejects array
    indexing (hierarchy child of a tdms dataset; tdms images on the unfiltered
-   path) raises NotImplementedError, and features that are all shorter than
-   the dataset raise IndexError.  [findings C02-nonsliceable-source and
-   C02-short-features-indexerror] *)
+   path) raises NotImplementedError (Err 1), and features that are all shorter
+   than the dataset raise IndexError (Err 2).  [findings
+   C02-nonsliceable-source and C02-short-features-indexerror; the guarded
+   positive statement is C02_export_selects: whenever export returns, the
+   content is right] *)
 Theorem C02_export_total_refuted :
   (exists (ds : dset Z) filt req,
       wf_ds Z ds /\ len filt = ds_len ds /\
@@ -136,31 +141,21 @@ Theorem C02_export_total_refuted :
 Proof. exact export_total_refuted. Qed.
 Print Assumptions C02_export_total_refuted.
 
-(* Outside these two classes it does succeed: all requested features exist,
-   every array has len(ds) events, sliceable sources accept array indices. *)
-Theorem C02_export_total_partial :
-  forall (A : Type) (d z : A) (enum : Z -> A) (cfg : Z) (ds : dset A)
-         (filt : list bool) (filtered skip : bool) (req : list Z),
-    len filt = ds_len ds ->
-    export_guard A ds req = true ->
-    exists calls cnt,
-      export A d z enum cfg ds filt filtered skip req = Ok (calls, cnt).
-Proof. exact export_total_partial. Qed.
-Print Assumptions C02_export_total_partial.
-
-(* Export.tsv: row r, column j holds the value of the j-th feature of the
-   sorted, de-duplicated request at the r-th selected event. *)
+(* Export.tsv: the columns are the requested scalar features in sorted order
+   without duplicates, each holding data[np.where(filter)[0]] (all events when
+   filtering is off); row r, column j of the table is column j's r-th value. *)
 Theorem C02_tsv_rows :
   forall (A : Type) (d : A) (ds : dset A) (filt : list bool) (filtered : bool)
          (req : list Z) (rows : list (list A)),
     tsv_rows A d ds filt filtered req = Ok rows ->
     exists cols,
       tsv_cols A ds filt filtered req = Ok cols
-      /\ length cols = length (sortset req)
-      /\ (forall j n, nth_error (sortset req) j = Some n ->
+      /\ rows = transpose A d cols
+      /\ Forall2 (fun n col =>
             exists f p, lookup A n (ds_feats ds) = Some f /\ f_parts f = [p]
-              /\ nth j cols [] = if filtered then take d (p_data p) (where_ filt)
-                                 else p_data p)
+              /\ (f_kind f = KScalar \/ f_kind f = KIndex)
+              /\ col = if filtered then take d (p_data p) (where_ filt)
+                       else p_data p) (sortset req) cols
       /\ (forall r j, (r < length (nth 0 cols []))%nat -> (j < length cols)%nat ->
             nth j (nth r rows []) d = nth r (nth j cols []) d).
 Proof. exact tsv_rows_spec. Qed.
